@@ -279,7 +279,7 @@ def check_gcirc(ctx, repo):
     for u, body in branches:
         got = {src(st.targets[0]): src(st.value) for st in body if isinstance(st, ast.Assign)}
         ctx.check('C18.UNITS', got == want.get(u), f, body[0], 'units=%s converts all four angles: %s' % (u, got),
-                  msg='units=%s branch converts %s, expected %s' % (u, got, want.get(u)), construct='units=%s conversions' % u)
+                  msg='units=%s branch converts %s, expected %s' % (u, got, want.get(u)), construct='units=%s conversions' % (u,))
     rets = [r for r in walk_local(f.node) if isinstance(r, ast.Return) and r.value is not None]
     ok = len(rets) == 2
     if ok:
@@ -290,6 +290,16 @@ def check_gcirc(ctx, repo):
               msg='the result scaling is not `dis` for units=0 and np.rad2deg(dis)*3600 otherwise', construct='result scaling')
     # haversine
     sq = [c for c in walk_local(f.node) if isinstance(c, ast.Call) and call_name(c) == 'sqrt']
+    hyp = [c for c in walk_local(f.node) if isinstance(c, ast.Call) and call_name(c) == 'hypot' and len(c.args) == 2]
+    if not sq and hyp:
+        # np.hypot(a, b) is sqrt(a*a + b*b)
+        a_, b_ = hyp[0].args
+        rad = ast.BinOp(left=ast.BinOp(left=a_, op=ast.Mult(), right=a_), op=ast.Add(), right=ast.BinOp(left=b_, op=ast.Mult(), right=b_))
+        fake = ast.Call(func=hyp[0].func, args=[rad], keywords=[])
+        ast.copy_location(fake, hyp[0])
+        ast.fix_missing_locations(fake)
+        fake._parent = getattr(hyp[0], '_parent', None)
+        sq = [fake]
     ctx.need(sq, 'gcirc: sqrt of the haversine not found')
 
     def base(e):
@@ -305,7 +315,7 @@ def check_gcirc(ctx, repo):
             return '%s(%s)' % (call_name(e), p)
         return None
     from ..inline import inline_calls
-    radicand = fa.deep(sq[0].args[0])
+    radicand = fa.deep(sq[0].args[0]) if isinstance(sq[0].args[0], ast.Name) else sq[0].args[0]
 
     def resolve_inl(n):
         d = fa.resolve(n)
